@@ -78,6 +78,7 @@ func NewNormalChol(mu []float64, chol *mat.Cholesky, src rand.Source) *Normal {
 		mu:  make([]float64, dim),
 	}
 	n.chol.Clone(chol)
+	n.chol.ToSym(&n.sigma)
 	copy(n.mu, mu)
 	n.logSqrtDet = 0.5 * n.chol.LogDet()
 	return n
